@@ -36,8 +36,25 @@ type Solver struct {
 	Time    time.Duration
 	Errors  []string
 	Log     io.Writer
-	timeout int // ms
+	timeout int // ms (full budget, used by the one-shot fallback)
 	floatDecl bool
+	frames    [][]*Term // mirror of the assertion stack
+	hard      *oneShot
+	lastHard  bool
+	HardQueries int
+	HardBin     string // binary for one-shot queries (default z3-new)
+	FastMs    int
+}
+
+// oneShot is a second solver process used non-incrementally: z3's incremental core
+// (after the first push) is far slower on array-of-bytes equalities than its tactic
+// pipeline, so queries the incremental process cannot decide within FastMs are re-posed
+// from scratch (cone of influence only) after a (reset).
+type oneShot struct {
+	cmd  *exec.Cmd
+	in   io.WriteCloser
+	out  *bufio.Reader
+	cone map[int]bool
 }
 
 func NewSolver(kind string, tb *Table, timeoutMs int) (*Solver, error) {
@@ -64,7 +81,7 @@ func NewSolver(kind string, tb *Table, timeoutMs int) (*Solver, error) {
 	if err := cmd.Start(); err != nil {
 		return nil, err
 	}
-	s := &Solver{Kind: kind, cmd: cmd, in: in, out: bufio.NewReaderSize(outp, 1<<16), tb: tb, timeout: timeoutMs}
+	s := &Solver{Kind: kind, cmd: cmd, in: in, out: bufio.NewReaderSize(outp, 1<<16), tb: tb, timeout: timeoutMs, FastMs: 1500, frames: [][]*Term{nil}}
 	if p := os.Getenv("SYMGO_SMTLOG"); p != "" {
 		f, _ := os.Create(fmt.Sprintf("%s.%d", p, cmd.Process.Pid))
 		s.Log = f
@@ -74,12 +91,18 @@ func NewSolver(kind string, tb *Table, timeoutMs int) (*Solver, error) {
 		s.send("(set-logic QF_UFBV)")
 		s.send("(set-option :produce-models true)")
 	} else {
-		s.send(fmt.Sprintf("(set-option :timeout %d)", timeoutMs))
+		s.send(fmt.Sprintf("(set-option :timeout %d)", s.FastMs))
 	}
 	return s, nil
 }
 
 func (s *Solver) Close() {
+	if s.hard != nil {
+		s.hard.in.Close()
+		s.hard.cmd.Process.Kill()
+		s.hard.cmd.Wait()
+		s.hard = nil
+	}
 	if s.cmd != nil {
 		s.in.Close()
 		s.cmd.Process.Kill()
@@ -101,11 +124,11 @@ func (s *Solver) define(t *Term) {
 	// declare new vars / UFs first
 	for s.nVars < len(s.tb.Vars) {
 		v := s.tb.Vars[s.nVars]
-		s.send(fmt.Sprintf("(declare-const |%s| %s)", v.Name, sortOf(v.W)))
+		s.send(fmt.Sprintf("(declare-const %s %s)", v.ref(), sortOf(v.W)))
 		s.nVars++
 	}
 	for s.nUFs < len(s.tb.UFs) {
-		s.send(fmt.Sprintf("(declare-fun |%s| ((_ BitVec 64)) (_ BitVec 8))", s.tb.UFs[s.nUFs]))
+		s.send(fmt.Sprintf("(declare-fun |arr:%s| ((_ BitVec 64)) (_ BitVec 8))", s.tb.UFs[s.nUFs]))
 		s.nUFs++
 	}
 	if s.tb.UsesFloatConv && !s.floatDecl {
@@ -150,15 +173,21 @@ func (s *Solver) defineRec(t *Term) {
 func (s *Solver) Push() {
 	s.send("(push 1)")
 	s.depth++
+	s.frames = append(s.frames, nil)
+	s.lastHard = false
 }
 func (s *Solver) Pop() {
 	s.send("(pop 1)")
 	s.depth--
+	s.frames = s.frames[:len(s.frames)-1]
+	s.lastHard = false
 }
 func (s *Solver) PopTo(d int) {
 	if s.depth > d {
 		s.send(fmt.Sprintf("(pop %d)", s.depth-d))
+		s.frames = s.frames[:len(s.frames)-(s.depth-d)]
 		s.depth = d
+		s.lastHard = false
 	}
 }
 func (s *Solver) Depth() int { return s.depth }
@@ -166,6 +195,8 @@ func (s *Solver) Depth() int { return s.depth }
 func (s *Solver) Assert(t *Term) {
 	s.define(t)
 	s.send("(assert " + t.ref() + ")")
+	s.frames[len(s.frames)-1] = append(s.frames[len(s.frames)-1], t)
+	s.lastHard = false
 }
 
 func (s *Solver) readLine() string {
@@ -176,7 +207,133 @@ func (s *Solver) readLine() string {
 	return strings.TrimSpace(line)
 }
 
+// CheckAssert decides an assertion query: these are the large array-equality formulas,
+// so they go straight to the one-shot solver.
+func (s *Solver) CheckAssert() Result {
+	s.Queries++
+	return s.checkHard()
+}
+
 func (s *Solver) Check() Result {
+	r := s.checkFast()
+	if r == Unknown && s.Kind != "cvc5" {
+		r = s.checkHard()
+	}
+	return r
+}
+
+func (s *Solver) checkHard() Result {
+	start := time.Now()
+	s.HardQueries++
+	if s.hard == nil {
+		bin := s.HardBin
+		if bin == "" {
+			bin = "z3-new"
+		}
+		cmd := exec.Command(bin, "-in")
+		in, err := cmd.StdinPipe()
+		if err != nil {
+			return Unknown
+		}
+		outp, err := cmd.StdoutPipe()
+		if err != nil {
+			return Unknown
+		}
+		cmd.Stderr = cmd.Stdout
+		if cmd.Start() != nil {
+			return Unknown
+		}
+		s.hard = &oneShot{cmd: cmd, in: in, out: bufio.NewReaderSize(outp, 1<<16)}
+	}
+	h := s.hard
+	var sb strings.Builder
+	sb.WriteString("(reset)\n")
+	fmt.Fprintf(&sb, "(set-option :timeout %d)\n", s.timeout)
+	// cone of influence
+	h.cone = map[int]bool{}
+	var order []*Term
+	var visit func(t *Term)
+	visit = func(t *Term) {
+		if h.cone[t.ID] {
+			return
+		}
+		h.cone[t.ID] = true
+		for _, a := range t.Args {
+			visit(a)
+		}
+		order = append(order, t)
+	}
+	var asserts []*Term
+	for _, fr := range s.frames {
+		for _, t := range fr {
+			visit(t)
+			asserts = append(asserts, t)
+		}
+	}
+	ufs := map[string]bool{}
+	floats := false
+	for _, t := range order {
+		switch t.Op {
+		case OpVar:
+			fmt.Fprintf(&sb, "(declare-const %s %s)\n", t.ref(), sortOf(t.W))
+		case OpSelect:
+			if !ufs[t.Name] {
+				ufs[t.Name] = true
+				fmt.Fprintf(&sb, "(declare-fun |arr:%s| ((_ BitVec 64)) (_ BitVec 8))\n", t.Name)
+			}
+		case OpF32to64, OpF64to32:
+			if !floats {
+				floats = true
+				sb.WriteString("(declare-fun f32to64 ((_ BitVec 32)) (_ BitVec 64))\n(declare-fun f64to32 ((_ BitVec 64)) (_ BitVec 32))\n")
+			}
+		}
+		if t.Op != OpConst && t.Op != OpVar {
+			fmt.Fprintf(&sb, "(define-fun t%d () %s %s)\n", t.ID, sortOf(t.W), t.body())
+		}
+	}
+	for _, t := range asserts {
+		sb.WriteString("(assert " + t.ref() + ")\n")
+	}
+	sb.WriteString("(check-sat)\n")
+	io.WriteString(h.in, sb.String())
+	var r Result = Unknown
+	for {
+		line, err := h.out.ReadString('\n')
+		if err != nil {
+			s.Errors = append(s.Errors, "(error \"one-shot solver died\")")
+			h.cmd.Process.Kill()
+			h.cmd.Wait()
+			s.hard = nil
+			break
+		}
+		line = strings.TrimSpace(line)
+		if line == "" {
+			continue
+		}
+		if line == "sat" {
+			r = Sat
+		} else if line == "unsat" {
+			r = Unsat
+		} else if line == "unknown" {
+			r = Unknown
+		} else if strings.HasPrefix(line, "(error") {
+			s.Errors = append(s.Errors, "one-shot: "+line)
+			continue
+		} else {
+			continue
+		}
+		break
+	}
+	s.lastHard = r == Sat
+	d := time.Since(start)
+	s.Time += d
+	if d > 5*time.Second && os.Getenv("SYMGO_SLOW") != "" {
+		fmt.Fprintf(os.Stderr, "    slow one-shot query %.1fs -> %s\n", d.Seconds(), r)
+	}
+	return r
+}
+
+func (s *Solver) checkFast() Result {
 	start := time.Now()
 	s.send("(check-sat)")
 	s.Queries++
@@ -278,6 +435,9 @@ func parseBV(tok string) (uint64, bool) {
 
 // GetValues evaluates terms in the current (sat) model.
 func (s *Solver) GetValues(ts []*Term) ([]uint64, error) {
+	if s.lastHard && s.hard != nil {
+		return s.getValuesHard(ts)
+	}
 	res := make([]uint64, len(ts))
 	const batch = 200
 	for i := 0; i < len(ts); i += batch {
@@ -370,4 +530,58 @@ func parseValuePairs(s string) ([]uint64, error) {
 		}
 	}
 	return vals, nil
+}
+
+// InCone reports whether the value of t is determined by the last (one-shot) query.
+func (s *Solver) InCone(t *Term) bool {
+	if s.lastHard && s.hard != nil {
+		return t.Op == OpConst || s.hard.cone[t.ID]
+	}
+	return true
+}
+
+func (s *Solver) getValuesHard(ts []*Term) ([]uint64, error) {
+	h := s.hard
+	res := make([]uint64, len(ts))
+	var idx []int
+	for i, t := range ts {
+		if t.Op == OpConst {
+			res[i] = t.Val
+		} else if h.cone[t.ID] {
+			idx = append(idx, i)
+		}
+	}
+	const batch = 200
+	for a := 0; a < len(idx); a += batch {
+		b := a + batch
+		if b > len(idx) {
+			b = len(idx)
+		}
+		var sb strings.Builder
+		sb.WriteString("(get-value (")
+		for _, i := range idx[a:b] {
+			sb.WriteString(ts[i].ref())
+			sb.WriteString(" ")
+		}
+		sb.WriteString("))\n")
+		io.WriteString(h.in, sb.String())
+		saved := s.out
+		s.out = h.out
+		resp := s.readSexp()
+		s.out = saved
+		if strings.HasPrefix(resp, "(error") {
+			return nil, fmt.Errorf("get-value(one-shot): %s", resp)
+		}
+		vals, err := parseValuePairs(resp)
+		if err != nil {
+			return nil, err
+		}
+		if len(vals) != b-a {
+			return nil, fmt.Errorf("get-value(one-shot): expected %d values, got %d", b-a, len(vals))
+		}
+		for k, i := range idx[a:b] {
+			res[i] = vals[k]
+		}
+	}
+	return res, nil
 }
